@@ -287,7 +287,7 @@ Local Open Scope string_scope.
    fixed: property=C20 17e806f class 12 (collector lookup table imported through the validating
           setter, InitGenesis returning on its error) - the rows ("collector", 3 | 1 | 5 | 7) are
           gone: InitGenesis stores the exported records with SetGenCollectorLookupTable;
-   fixed: property=C20 PENDING class 18 (rewards InitGenesis never restored the id counters of the
+   fixed: property=C20 dfe74db class 18 (rewards InitGenesis never restored the id counters of the
           external reward programmes for lockers / vaults, so the next programme got id 1 again and
           overwrote the live programme 1) - the rows ("rewards", 21 | 22) are gone: both counters are
           recomputed as the maximum id of the imported programmes, and the programme records
